@@ -22,6 +22,7 @@ type Obligation struct {
 	Pos    string
 	Side   bool // safety side condition (not a property obligation)
 	TimeoutMs int
+	Splits []string // exhaustive case split (edge conditions of the nearest control-flow merge); used when the plain query is undecided
 }
 
 // State is the symbolic heap at a program point.
@@ -77,6 +78,7 @@ type Gen struct {
 	goStmts     []string
 	freshNames  map[string]bool
 	blockingOps []string
+	curSplits   []string
 	arrSync     map[string][2]string
 	tparamTypes map[string]*types.TypeParam
 }
